@@ -27,6 +27,8 @@ checks = {
    text='Generated peer lists (0-16 IPv4/IPv6, self in/out, DC/tokens present or not, DSE or not) x 30 selector lists as QUERY and PREPARE+EXECUTE on v3 and v4; one real Proxy per list entry for mutual consistency; restart and cross-process host-id stability.', ref='2/C10'),
  'C11': dict(cat='exploration', tech='runtime monitoring of pure functions: differential test of the partial codecs against the reference codec on generated, truncated, mutated and random bodies',
    text='20k (quick) / 500k (thorough) reference-encoded QUERY/EXECUTE/BATCH messages over all five versions: partial decode fields == reference decode, partial re-encode == input bytes; every prefix, single-field mutations and random bytes: error or bounded success, never a panic or over-read.', ref='2/C11'),
+ 'C12': dict(cat='exploration', tech='runtime monitoring: byte-level comparison of client-sent and backend-received bodies with the expected two-byte consistency substitution, sentinel request for framing',
+   text='Generated (unsupported set, override) configurations through proxy.Run (flags and YAML) x 150 generated requests each over five versions and three compressions; rewrite expected iff non-SELECT QUERY / EXECUTE of a non-SELECT id / BATCH with a consistency in the set; otherwise byte-identical; with no list nothing is modified.', ref='2/C12'),
  'C13': dict(cat='exploration', tech='runtime monitoring: per-stream reply counting, independently computed version predicate, backend-log oracle for forwarding',
    text='All known version bytes x opcodes x configured max versions; all 250 unknown version bytes; STARTUP option maps; all orders of OPTIONS/STARTUP/REGISTER/QUERY up to length 4, awaited and pipelined.', ref='2/C13'),
  'C14': dict(cat='exploration', tech='runtime monitoring: exactly-once counting of uniquely identified events over recorded client frames, sentinel-event logical barrier',
